@@ -14,8 +14,11 @@ correspondence of harness/c12.py for everything else), the right-hand sides are 
 holds for sequences, line breakings, trees and macro sequences of ANY length (induction, no bound).
 -/
 import PolyplyVerif.Generated.Tables
+import PolyplyVerif.Generated.SeqTables
 import PolyplyVerif.Model.Seq
+import PolyplyVerif.Model.SeqExt
 import PolyplyVerif.Proofs.Seq
+import PolyplyVerif.Proofs.SeqExt
 
 namespace PolyplyVerif.C12
 open PolyplyVerif PolyplyVerif.Seq
@@ -343,5 +346,330 @@ example : (genSeq { fromFile := [], macroStrings := ["A:2:1:PS-1".toList, "B:2:2
                     seq := some ["A", "B"], connects := ["0:1:1-0".toList], modifications := ["1:OH".toList],
                     tags := ["0:chiral:R-1".toList] }).map (fun g => (g.nodes.map (·.resname), g.edges.map fun e => (e.u, e.v)))
     = some (["PS", "PS", "PEO", "OH", "OH"], [(0, 1), (2, 3), (2, 4), (1, 2)]) := by decide
+
+/-! ## Round 5: translator anchors (`Generated/SeqTables.lean`, read from the CURRENT source on every run)
+
+The model of `Model/Seq.lean` writes the literals of the parsers out (`"5"`, `"3"`, `'1'`, `'2'`, `';'`, `'>'`,
+`"DNA"` …).  The theorems below state that the model's definitions ARE the ones built from the generated
+constants (`rfl`: they stop checking as soon as the source says something else), and the facts about the
+generated constants the file-level theorems silently rely on. -/
+
+/-- `_parse_plain`'s terminal naming in the model is the one of the source: `monomers[0] += suffix5`,
+`monomers[-1] += suffix3` for EVERY monomer list; the two suffixes differ and are ONE character long (which
+is what makes `resname[:-1]` in `parse_ig` remove exactly the suffix again). -/
+theorem C12_anchor_suffixes :
+    (∀ m : List String, suffixTermini m =
+      if m.isEmpty then none
+      else some (modifyLast (· ++ SeqTables.suffix3) (m.modifyHead (· ++ SeqTables.suffix5)))) ∧
+    SeqTables.suffix5 ≠ SeqTables.suffix3 ∧
+    SeqTables.suffix5.toList.length = 1 ∧ SeqTables.suffix3.toList.length = 1 ∧
+    (∀ s : String, dropLastChar (s ++ SeqTables.suffix5) = s ∧ dropLastChar (s ++ SeqTables.suffix3) = s) :=
+  ⟨fun _ => rfl, by decide, by decide, by decide,
+   fun s => ⟨Proofs.Seq.dropLastChar_5 s, Proofs.Seq.dropLastChar_3 s⟩⟩
+
+example : suffixTermini ["DA", "DC", "DG"] = some ["DA" ++ SeqTables.suffix5, "DC", "DG" ++ SeqTables.suffix3] := by decide
+
+/-- `.ig`: the model's comment splitting and terminator test are the source's; the circular terminator is one of
+the two terminators, they are distinct, and neither is the comment sign. -/
+theorem C12_anchor_ig :
+    (∀ line : Text, splitComments line =
+      (strip (line.takeWhile (· != SeqTables.igCommentChar)),
+       strip ((line.dropWhile (· != SeqTables.igCommentChar)).drop 1))) ∧
+    SeqTables.igTerminators = ['1', '2'] ∧ SeqTables.igCircular = '2' ∧
+    SeqTables.igCircular ∈ SeqTables.igTerminators ∧ SeqTables.igTerminators.Nodup ∧
+    SeqTables.igCommentChar ∉ SeqTables.igTerminators ∧
+    (∀ c : Char, SeqChar c ↔ isSpace c = false ∧ c ≠ SeqTables.igCommentChar ∧ c ∉ SeqTables.igTerminators) := by
+  refine ⟨fun _ => rfl, by decide, by decide, by decide, by decide, by decide, ?_⟩
+  intro c
+  have h : SeqTables.igTerminators = ['1', '2'] := by decide
+  have h' : SeqTables.igCommentChar = ';' := by decide
+  simp only [SeqChar, h, h', List.mem_cons, List.not_mem_nil, or_false, not_or]
+
+example : SeqChar 'A' ∧ ¬ SeqChar SeqTables.igCircular ∧ ¬ SeqChar SeqTables.igCommentChar := by
+  refine ⟨⟨by decide, by decide, by decide, by decide⟩, ?_, ?_⟩
+  · intro h; exact h.2.2.2 (by decide)
+  · intro h; exact h.2.1 (by decide)
+
+/-- the closing edge of a circular `.ig` sequence carries the label the source sets -/
+theorem C12_anchor_circle (f : Flags) (g : SGraph) :
+    closeCircle f g =
+      (let n := g.nodes.length
+       if n = 0 then none else
+       let g1 := (g.addEdge 0 (n - 1)).setEdgeAttr 0 (n - 1) SeqTables.circleKey SeqTables.circleValue
+       if f.dna || f.rna then
+         let g2 := g1.modifyNode 0 fun nd => { nd with resname := dropLastChar nd.resname }
+         some (g2.modifyNode (n - 1) fun nd => { nd with resname := dropLastChar nd.resname })
+       else some g1) := rfl
+
+example : (SeqTables.circleKey, SeqTables.circleValue) = ("linktype", "circle") := by decide
+
+/-- `.fasta`: sequence lines end at the first line containing the source's marker -/
+theorem C12_anchor_fasta (T : Tabs) (t : Text) :
+    parseFasta T t =
+      match readLines t with
+      | [] => none
+      | hd :: rest => (identify [hd]).bind fun f =>
+          parsePlain T f (rest.takeWhile fun l => !l.contains SeqTables.fastaMarker) := rfl
+
+example : SeqTables.fastaMarker = '>' := by decide
+
+/-- `_identify_residues` in the model looks for the source's keywords; no keyword occurs inside another one
+(so a comment naming one alphabet switches on exactly that flag: `identify` of the bare keyword). -/
+theorem C12_anchor_keywords :
+    (∀ comments : List Text, identify comments =
+      (let dna := comments.any (hasSub SeqTables.kwDNA.toList)
+       let rna := comments.any (hasSub SeqTables.kwRNA.toList)
+       let aa := comments.any (hasSub SeqTables.kwAA.toList)
+       if rna && dna then none else if !rna && !dna && !aa then none else some ⟨dna, rna, aa⟩)) ∧
+    identify [SeqTables.kwDNA.toList] = some (flagsOf .dna) ∧
+    identify [SeqTables.kwRNA.toList] = some (flagsOf .rna) ∧
+    identify [SeqTables.kwAA.toList] = some (flagsOf .aa) ∧
+    identify [SeqTables.kwDNA.toList, SeqTables.kwRNA.toList] = none ∧ identify [[]] = none :=
+  ⟨fun _ => rfl, by decide, by decide, by decide, by decide, by decide⟩
+
+example : identify ["; my PROTEIN of the DNA world".toList] = some ⟨true, false, true⟩ := by decide
+
+/-- No one-letter code of any of the three translated tables collides with a character the readers treat
+specially (white space, the `.ig` comment sign and terminators, the fasta marker): every letter may stand in a
+sequence line (`SeqChar`, hypothesis of `C12_ig` / `C12_fasta`), and conversely none of the special characters
+is translated.  `decide` on the translated literals. -/
+theorem C12_letters_vs_special :
+    (∀ kv ∈ Tabs.repo.dna ++ Tabs.repo.rna ++ Tabs.repo.aa, ∀ c ∈ kv.1.toList,
+      isSpace c = false ∧ c ∉ SeqTables.igTerminators ∧ c ≠ SeqTables.igCommentChar ∧ c ≠ SeqTables.fastaMarker) ∧
+    (∀ c ∈ SeqTables.igTerminators ++ [SeqTables.igCommentChar, SeqTables.fastaMarker, ' ', '\t', '\n', '\r'],
+      lookup1 Tabs.repo.dna c = none ∧ lookup1 Tabs.repo.rna c = none ∧ lookup1 Tabs.repo.aa c = none) := by
+  decide
+
+example : lookup1 Tabs.repo.aa 'O' = some "HYP" ∧ lookup1 Tabs.repo.aa '1' = none := by decide
+
+/-- gen_seq / `-seq`: the separators, the block attribute and the degree of a terminal node of the source are
+the ones the model uses -/
+theorem C12_anchor_genseq :
+    SeqTables.genSeqSeparators = [",", "-", ":"] ∧ SeqTables.seqidAttr = "seqid" ∧ SeqTables.seqItemSep = ':' ∧
+    (∀ g : SGraph, terminalNodes g =
+      (g.nodes.filter fun n => g.degree n.key == SeqTables.terminalDegree).map (·.key)) :=
+  ⟨by decide, by decide, by decide, fun _ => rfl⟩
+
+example : terminalNodes ⟨[⟨0, "A", none, some 0, []⟩, ⟨1, "A", none, some 0, []⟩, ⟨2, "A", none, some 0, []⟩],
+    [⟨0, 1, []⟩, ⟨1, 2, []⟩]⟩ = [0, 2] := by decide
+
+/-! ### file-suffix dispatch (`MetaMolecule.from_sequence_file`) -/
+
+/-- The dispatch through the GENERATED table `MetaMolecule.parsers` is the one the file-level theorems were proved
+for: for EVERY suffix (any capitalisation) and every file content `fromSequenceFileAny` (table lookup) agrees with
+`fromSequenceFile` (written-out cascade); a suffix is served iff it is one of txt/fasta/ig/json; a node-link
+document is read iff the suffix is json. -/
+theorem C12_dispatch (T : Tabs) (ext : Text) :
+    (∀ t, fromSequenceFileAny T ext (.text t) = fromSequenceFile T ext t) ∧
+    ((parserFor ext).isSome ↔ String.ofList (lowerAscii ext) ∈ ["txt", "fasta", "ig", "json"]) ∧
+    (∀ d, fromSequenceFileAny T ext (.doc d) =
+      if String.ofList (lowerAscii ext) = "json" then some (toMeta (parseJson d)) else none) := by
+  have n1 : ¬ ("fasta" = "txt") := by decide
+  have n2 : ¬ ("ig" = "txt") := by decide
+  have n3 : ¬ ("ig" = "fasta") := by decide
+  have n4 : ¬ ("json" = "txt") := by decide
+  have n5 : ¬ ("json" = "fasta") := by decide
+  have n6 : ¬ ("json" = "ig") := by decide
+  have m1 : ¬ ("parse_fasta" = "parse_txt") := by decide
+  have m2 : ¬ ("parse_ig" = "parse_txt") := by decide
+  have m3 : ¬ ("parse_ig" = "parse_fasta") := by decide
+  have m4 : ¬ ("parse_json" = "parse_txt") := by decide
+  have m5 : ¬ ("parse_json" = "parse_fasta") := by decide
+  have m6 : ¬ ("parse_json" = "parse_ig") := by decide
+  have k1 : ¬ ("txt" = "json") := by decide
+  have k2 : ¬ ("fasta" = "json") := by decide
+  have k3 : ¬ ("ig" = "json") := by decide
+  rcases Proofs.SeqExt.parserFor_cases ext with ⟨he, hp⟩ | ⟨he, hp⟩ | ⟨he, hp⟩ | ⟨he, hp⟩ | ⟨h1, h2, h3, h4, hp⟩
+  · refine ⟨fun t => ?_, ?_, fun d => ?_⟩
+    · simp only [fromSequenceFileAny, fromSequenceFile, hp, he, if_true]
+    · simp [hp, he]
+    · simp only [fromSequenceFileAny, hp, he, if_true, k1, if_false]
+  · refine ⟨fun t => ?_, ?_, fun d => ?_⟩
+    · simp only [fromSequenceFileAny, fromSequenceFile, hp, he, if_true, n1, m1, if_false]
+    · simp [hp, he]
+    · simp only [fromSequenceFileAny, hp, he, if_true, k2, m1, if_false]
+  · refine ⟨fun t => ?_, ?_, fun d => ?_⟩
+    · simp only [fromSequenceFileAny, fromSequenceFile, hp, he, if_true, n2, n3, m2, m3, if_false]
+    · simp [hp, he]
+    · simp only [fromSequenceFileAny, hp, he, if_true, k3, m2, m3, if_false]
+  · refine ⟨fun t => ?_, ?_, fun d => ?_⟩
+    · simp only [fromSequenceFileAny, fromSequenceFile, hp, he, if_true, n4, n5, n6, m4, m5, m6, if_false]
+    · simp [hp, he]
+    · simp only [fromSequenceFileAny, hp, he, if_true, m4, m5, m6, if_false]
+  · refine ⟨fun t => ?_, ?_, fun d => ?_⟩
+    · simp only [fromSequenceFileAny, fromSequenceFile, hp, h1, h2, h3, if_false]
+    · simp [hp, h1, h2, h3, h4]
+    · simp only [fromSequenceFileAny, hp, h4, if_false]
+
+example : parserFor "FASTA".toList = some "parse_fasta" ∧ parserFor "Json".toList = some "parse_json" ∧
+    parserFor "fa".toList = none ∧ parserFor [] = none ∧
+    SeqTables.parsers.map (·.1) = ["txt", "fasta", "ig", "json"] := by decide
+
+/-! ### the gen_seq command strings: parsing inverts writing -/
+
+/-- `MacroString`: for EVERY name, level count, branching factor and non-empty residue list (names free of the
+separators) the string `<name>:<levels>:<bfact>:<res-1|0,…>` is parsed back to exactly these fields. -/
+theorem C12_macro_roundtrip (name : String) (levels bfact : Nat) (probs : List (String × Bool))
+    (hname : ':' ∉ name.toList) (hne : probs ≠ []) (hp : ∀ p ∈ probs, FieldName p.1) :
+    parseMacroString (renderMacro name levels bfact probs) = some (name, Macro.tree levels bfact probs) ∧
+    macroFields (renderMacro name levels bfact probs) = some (name, levels, bfact, probs) := by
+  have h := Proofs.SeqExt.parseMacroString_render name levels bfact probs hname hne hp
+  exact ⟨h, by unfold macroFields; rw [h]⟩
+
+example : renderMacro "A" 12 3 [("PEO", true), ("PS", false)] = "A:12:3:PEO-1,PS-0".toList ∧
+    FieldName "PEO" ∧ FieldName "PS" := by
+  refine ⟨by decide, ⟨by decide, by decide, by decide⟩, ⟨by decide, by decide, by decide⟩⟩
+
+/-- What a tree macro generates, for EVERY macro with a certain residue, at least one level and branching
+factor ≥ 1: `treeSize` residues of that name, node `j ≥ 1` below node `(j-1)/bfact` ("as the macro tree shape
+dictates"), straight from the command string. -/
+theorem C12_macro_graph (name : String) (levels bfact : Nat) (probs : List (String × Bool)) (nm : String)
+    (hname : ':' ∉ name.toList) (hp : ∀ p ∈ probs, FieldName p.1) (hc : pickCertain probs = some nm)
+    (hl : 1 ≤ levels) (hb : 1 ≤ bfact) :
+    macroGraph (renderMacro name levels bfact probs) =
+      some ⟨List.replicate (treeSize bfact levels) nm, specTreeEdges (treeSize bfact levels) bfact⟩ := by
+  have hne : probs ≠ [] := by
+    intro h; rw [h] at hc; simp [pickCertain] at hc
+  unfold macroGraph
+  rw [Proofs.SeqExt.parseMacroString_render name levels bfact probs hname hne hp]
+  have hn : treeSize bfact levels ≠ 0 := by
+    cases levels with
+    | zero => omega
+    | succ l => simp [treeSize]
+  simp only [Option.bind_some, Macro.genGraph, hn, if_false, hc, Option.map_some, Proofs.Seq.treeEdges_spec _ _ hb]
+
+example : macroGraph "A:2:2:N-1,X-0".toList = some ⟨["N", "N", "N"], [(0, 1), (0, 2)]⟩ ∧
+    pickCertain [("N", true), ("X", false)] = some "N" := by decide
+
+/-- connect records, terminal renamings and labels: parsing inverts writing, for EVERY record -/
+theorem C12_records_roundtrip :
+    (∀ c : Nat × Nat × List (Nat × Nat), c.2.2 ≠ [] → parseConnect (renderConnect c) = some c) ∧
+    (∀ m : Nat × String, ':' ∉ m.2.toList → parseModification (renderModification m) = some m) ∧
+    (∀ t : Nat × String × List (String × Bool), ':' ∉ t.2.1.toList → t.2.2 ≠ [] → (∀ p ∈ t.2.2, FieldName p.1) →
+      parseTag (renderTag t) = some t) :=
+  ⟨Proofs.SeqExt.parseConnect_render, Proofs.SeqExt.parseModification_render,
+   fun t ha hne hp => Proofs.SeqExt.parseTag_render t ha hne hp⟩
+
+example : renderConnect (0, 12, [(1, 0), (10, 3)]) = "0:12:1-0,10-3".toList ∧
+    renderModification (1, "OH") = "1:OH".toList ∧
+    renderTag (0, "chiral", [("R", true), ("S", false)]) = "0:chiral:R-1,S-0".toList := by decide
+
+/-! ### `_add_edges`, `_apply_termini_modifications`, `_tag_nodes` on ARBITRARY labelled graphs -/
+
+/-- One item `a-b` of `_add_edges(graph, …, i, j)` on ANY graph (blocks need not be laid out contiguously,
+edges may already be there): it is accepted IFF block `i` has an `a`-th and block `j` a `b`-th node (counted from
+0 in node order); if accepted it adds exactly the edge between these two nodes — every node and every other edge
+untouched, an edge already present stays as it is — and afterwards the two nodes are joined. -/
+theorem C12_connect_iff (g : SGraph) (i j a b : Nat) :
+    ((addConnectEdge g i j a b).isSome ↔ a < (g.findSeqid i).length ∧ b < (g.findSeqid j).length) ∧
+    ∀ g', addConnectEdge g i j a b = some g' →
+      ∃ u v, (g.findSeqid i)[a]? = some u ∧ (g.findSeqid j)[b]? = some v ∧
+        g'.nodes = g.nodes ∧ g'.edges = edgesPlus g u v ∧ g'.hasEdge u v = true ∧ ∀ e ∈ g.edges, e ∈ g'.edges := by
+  cases hu : (g.findSeqid i)[a]? with
+  | none =>
+    have hn := Proofs.SeqExt.addConnectEdge_none g i j a b (Or.inl hu)
+    refine ⟨?_, fun g' h => by rw [hn] at h; cases h⟩
+    rw [hn]
+    have : ¬ a < (g.findSeqid i).length := by
+      intro h; rw [List.getElem?_eq_getElem h] at hu; cases hu
+    simp [this]
+  | some u =>
+    cases hv : (g.findSeqid j)[b]? with
+    | none =>
+      have hn := Proofs.SeqExt.addConnectEdge_none g i j a b (Or.inr hv)
+      refine ⟨?_, fun g' h => by rw [hn] at h; cases h⟩
+      rw [hn]
+      have : ¬ b < (g.findSeqid j).length := by
+        intro h; rw [List.getElem?_eq_getElem h] at hv; cases hv
+      simp [this]
+    | some v =>
+      have hs := Proofs.SeqExt.addConnectEdge_some g i j a b u v hu hv
+      have ha : a < (g.findSeqid i).length := by
+        rcases Nat.lt_or_ge a (g.findSeqid i).length with h | h
+        · exact h
+        · rw [List.getElem?_eq_none h] at hu; cases hu
+      have hb : b < (g.findSeqid j).length := by
+        rcases Nat.lt_or_ge b (g.findSeqid j).length with h | h
+        · exact h
+        · rw [List.getElem?_eq_none h] at hv; cases hv
+      refine ⟨by rw [hs]; simp [ha, hb], fun g' h => ?_⟩
+      rw [hs] at h
+      cases h
+      refine ⟨u, v, rfl, rfl, Proofs.Seq.addEdge_nodes g u v, Proofs.SeqExt.addEdge_edges g u v,
+        Proofs.SeqExt.addEdge_hasEdge g u v, fun e he => ?_⟩
+      rw [Proofs.SeqExt.addEdge_edges]
+      unfold edgesPlus
+      split
+      · exact he
+      · exact List.mem_append_left _ he
+
+example : addConnectEdge ⟨[⟨5, "A", none, some 2, []⟩, ⟨7, "B", none, none, []⟩, ⟨9, "A", none, some 2, []⟩], []⟩ 2 2 0 1
+      = some ⟨[⟨5, "A", none, some 2, []⟩, ⟨7, "B", none, none, []⟩, ⟨9, "A", none, some 2, []⟩], [⟨5, 9, []⟩]⟩ ∧
+    addConnectEdge ⟨[⟨5, "A", none, some 2, []⟩, ⟨7, "B", none, none, []⟩, ⟨9, "A", none, some 2, []⟩], []⟩ 2 2 0 2 = none := by
+  decide
+
+/-- the text form `_add_edges(graph, "a-b,c-d", i, j)` of a non-empty item list is the fold of its items -/
+theorem C12_add_edges_text (g : SGraph) (i j : Nat) (items : List (Nat × Nat)) (hne : items ≠ []) :
+    addEdgesText g (joinWith ',' (items.map Proofs.SeqExt.edgeItem)) i j = addConnect g (i, j, items) := by
+  unfold addEdgesText
+  rw [Proofs.Seq.splitOn_joinWith ',' _ (by simpa using hne)]
+  · rw [Proofs.SeqExt.mapM_map_some _ Proofs.SeqExt.edgeItem items fun ab _ => Proofs.SeqExt.parseEdgeItem_render ab]
+    rfl
+  · intro t ht hc
+    obtain ⟨ab, _, rfl⟩ := List.mem_map.mp ht
+    exact (Proofs.SeqExt.mem_edgeItem ab _ hc).2 rfl
+
+example : joinWith ',' ([(1, 0), (10, 3)].map Proofs.SeqExt.edgeItem) = "1-0,10-3".toList := by decide
+
+/-- which nodes `_find_terminal_nodes` returns: the keys of the nodes of degree one (a self loop counts twice) -/
+theorem C12_terminal_iff (g : SGraph) (k : Nat) :
+    k ∈ terminalNodes g ↔ (∃ n ∈ g.nodes, n.key = k) ∧ g.degree k = 1 := by
+  unfold terminalNodes
+  simp only [List.mem_map, List.mem_filter, beq_iff_eq]
+  constructor
+  · rintro ⟨n, ⟨hn, hd⟩, rfl⟩
+    exact ⟨⟨n, hn, rfl⟩, hd⟩
+  · rintro ⟨⟨n, hn, rfl⟩, hd⟩
+    exact ⟨n, ⟨hn, hd⟩, rfl⟩
+
+/-- `_apply_termini_modifications` on ANY graph and EVERY list of renamings: the edges and the node list (keys,
+resid, seqid, labels, order) are untouched; a node's resname becomes the name of the LAST renaming whose seqID is
+the node's block, provided the node has degree one in the graph as it was handed in — every other resname is
+unchanged. -/
+theorem C12_modifications_frame (g : SGraph) (mods : List (Nat × String)) :
+    (mods.foldl (applyModification (terminalNodes g)) g).edges = g.edges ∧
+    (mods.foldl (applyModification (terminalNodes g)) g).nodes = g.nodes.map fun n =>
+      match (mods.filter fun m => n.seqid == some m.1 && g.degree n.key == 1).getLast? with
+      | some m => { n with resname := m.2 }
+      | none => n := by
+  rw [Proofs.Seq.mods_nodes]
+  refine ⟨rfl, ?_⟩
+  apply List.map_congr_left
+  intro n hn
+  rw [Proofs.Seq.stepMod_last, Proofs.Seq.terminal_contains g n hn]
+  rfl
+
+example : ([(0, "X"), (1, "Y"), (0, "Z")].foldl (applyModification (terminalNodes
+      ⟨[⟨0, "A", none, some 0, []⟩, ⟨1, "A", none, some 0, []⟩, ⟨2, "B", none, some 1, []⟩], [⟨0, 1, []⟩, ⟨1, 2, []⟩]⟩))
+      ⟨[⟨0, "A", none, some 0, []⟩, ⟨1, "A", none, some 0, []⟩, ⟨2, "B", none, some 1, []⟩], [⟨0, 1, []⟩, ⟨1, 2, []⟩]⟩).nodes
+    = [⟨0, "Z", none, some 0, []⟩, ⟨1, "A", none, some 0, []⟩, ⟨2, "Y", none, some 1, []⟩] := by decide
+
+/-- One label `s:attr:value` of `_tag_nodes` on ANY graph with distinct node keys, block `s` not empty: the edges
+are untouched and the label is set on exactly the nodes whose seqid is `s` (all their other attributes, and every
+other node, unchanged).  (For an empty block the code labels EVERY node — `if not nodes` — see
+notes/C12_findings.md; the model mirrors that, `applyTag`.) -/
+theorem C12_tag_frame (g : SGraph) (hk : (g.nodes.map (·.key)).Nodup) (s : Nat) (attr v : String)
+    (probs : List (String × Bool)) (hp : pickCertain probs = some v) (hne : g.findSeqid s ≠ []) :
+    applyTag g (s, attr, probs) =
+      some ⟨g.nodes.map fun n => if n.seqid = some s then { n with tags := n.tags.set attr v } else n, g.edges⟩ := by
+  rw [Proofs.Seq.applyTag_valid g hk s attr v probs hp hne]
+  congr 2
+  apply List.map_congr_left
+  intro n _
+  unfold Proofs.Seq.stepTag
+  by_cases h : n.seqid = some s <;> simp [h]
+
+example : applyTag ⟨[⟨0, "A", none, some 0, []⟩, ⟨1, "B", none, some 1, []⟩], [⟨0, 1, []⟩]⟩ (1, "chiral", [("R", true)])
+    = some ⟨[⟨0, "A", none, some 0, []⟩, ⟨1, "B", none, some 1, [("chiral", "R")]⟩], [⟨0, 1, []⟩]⟩ := by decide
 
 end PolyplyVerif.C12
